@@ -65,9 +65,381 @@ theorem Stop.not_digit {rest : List Char} (h : Stop rest) : ∀ c t, rest = c ::
   · cases e
   all_goals (rw [h] at e; injection e with e1 _; subst e1; decide)
 
-/-- an unsigned digit string followed by a stop is read as that number, nothing else consumed -/
-theorem parseNum_nat (n : Nat) (rest : List Char) (hs : Stop rest) (hi : Value.inI64 (n : Int) = true) :
-    parseNum (Nat.toDigits 10 n ++ rest) = some (.int n, rest) := by
-  sorry
+theorem splitSign_of_ne (c : Char) (t : List Char) (h : c ≠ '-') : splitSign (c :: t) = (false, c :: t) := by
+  unfold splitSign
+  split
+  · rename_i heq; injection heq with h1 _; exact absurd h1 h
+  · rfl
+
+theorem splitSign_minus (t : List Char) : splitSign ('-' :: t) = (true, t) := rfl
+
+theorem fracPart_stop (rest : List Char) (hs : Stop rest) : fracPart rest = ([], rest, false, true) := by
+  rcases hs with rfl | ⟨t, h | h | h⟩ <;> (try subst h) <;> rfl
+
+theorem expPart_stop (rest : List Char) (hs : Stop rest) : expPart rest = some (0, rest, false) := by
+  rcases hs with rfl | ⟨t, h | h | h⟩ <;> (try subst h) <;> simp [expPart]
+
+/-- the digits of `n`, optionally signed, followed by a stop: the common part of `parseNum` -/
+theorem parseNum_digits (neg : Bool) (n : Nat) (rest : List Char) (hs : Stop rest) :
+    parseNum ((if neg then ['-'] else []) ++ Nat.toDigits 10 n ++ rest) =
+      (let v : Int := if neg then -(n : Int) else n
+       if neg && (n : Int) = 0 then some (Value.fromFloat (F64.fin true 0 F64.eMin), rest)
+       else if Value.inI64 v then some (.int v, rest)
+       else some (Value.fromFloat (F64.ofDecimal neg n 0), rest)) := by
+  have hall := toDigits_all_digit n
+  have htw := takeWhile_append_stop Char.isDigit (Nat.toDigits 10 n) rest hall hs.not_digit
+  have hsplit : splitSign ((if neg then ['-'] else []) ++ Nat.toDigits 10 n ++ rest) =
+      (neg, Nat.toDigits 10 n ++ rest) := by
+    cases neg with
+    | true => simp [splitSign_minus]
+    | false =>
+      cases hd : Nat.toDigits 10 n with
+      | nil => exact absurd hd Nat.toDigits_ne_nil
+      | cons d0 ds =>
+        have hd0 : d0.isDigit = true := hall d0 (by simp [hd])
+        have hne : d0 ≠ '-' := by intro e; subst e; simp at hd0
+        simp [splitSign_of_ne d0 _ hne]
+  have hne : (Nat.toDigits 10 n).isEmpty = false := by
+    cases hd : Nat.toDigits 10 n with
+    | nil => exact absurd hd Nat.toDigits_ne_nil
+    | cons _ _ => rfl
+  have hlead : (decide ((Nat.toDigits 10 n).length > 1) && (Nat.toDigits 10 n).head? == some '0') = false := by
+    by_cases h0 : n = 0
+    · subst h0; decide
+    · have := toDigits_head n (by omega)
+      simp [this]
+  unfold parseNum
+  simp only [hsplit, htw.1, htw.2, hne, hlead, fracPart_stop rest hs, expPart_stop rest hs,
+    digitsToNat_toDigits]
+  simp
+
+/-- an integer literal inside i64 followed by a stop is read as that integer, nothing else consumed -/
+theorem parseNum_int (i : Int) (rest : List Char) (hs : Stop rest) (hi : Value.inI64 i = true) :
+    parseNum ((toString i).toList ++ rest) = some (.int i, rest) := by
+  rw [Int.toString_eq_repr, Int.repr_eq_if]
+  by_cases h0 : 0 ≤ i
+  · have := parseNum_digits false i.toNat rest hs
+    simp only [if_pos h0, Nat.toList_repr]
+    simp only [Bool.false_eq_true, if_false, List.nil_append, Bool.false_and] at this
+    rw [this]
+    have e : (i.toNat : Int) = i := by omega
+    simp [e, hi]
+  · have := parseNum_digits true (-i).toNat rest hs
+    simp only [if_neg h0, String.toList_append, Nat.toList_repr]
+    simp only [if_true, Bool.true_and] at this
+    have e : ((-i).toNat : Int) = -i := by omega
+    have e1 : "-".toList = ['-'] := rfl
+    rw [e1, this]
+    have hnz : ¬ (-i = 0) := by omega
+    simp [e, hnz, hi]
+
+/-! ### strings: serde_json's escapes -/
+
+def hexDigit (d : Nat) : Char := if d < 10 then Char.ofNat (48 + d) else Char.ofNat (87 + d)
+
+/-- how serde_json writes one character of a string: `\"` `\\` `\b` `\f` `\n` `\r` `\t`, other
+control characters as `\u00XX`, everything else (DEL, non-ASCII, `/`) raw -/
+def escChar (c : Char) : List Char :=
+  if c = '"' then ['\\', '"']
+  else if c = '\\' then ['\\', '\\']
+  else if c = '\n' then ['\\', 'n']
+  else if c = '\r' then ['\\', 'r']
+  else if c = '\t' then ['\\', 't']
+  else if c = Char.ofNat 8 then ['\\', 'b']
+  else if c = Char.ofNat 12 then ['\\', 'f']
+  else if c.toNat < 0x20 then ['\\', 'u', '0', '0', hexDigit (c.toNat / 16), hexDigit (c.toNat % 16)]
+  else [c]
+
+/-- the body of a string literal followed by `k` -/
+def escK : List Char → List Char → List Char
+  | [], k => k
+  | c :: cs, k => escChar c ++ escK cs k
+
+theorem hexVal_hexDigit : ∀ d : Fin 16, hex4.hexVal (hexDigit d.val) = some d.val := by decide
+
+theorem hex4_ctl (n : Nat) (h : n < 32) (rest : List Char) :
+    hex4 ('0' :: '0' :: hexDigit (n / 16) :: hexDigit (n % 16) :: rest) = some (n, rest) := by
+  have h1 := hexVal_hexDigit ⟨n / 16, by omega⟩
+  have h2 := hexVal_hexDigit ⟨n % 16, by omega⟩
+  have h0 : hex4.hexVal '0' = some 0 := by decide
+  simp only [hex4, h0, h1, h2]
+  simp
+  omega
+
+/-- one (escaped) character: the reader pushes the character itself -/
+theorem parseStr_char (fuel : Nat) (c : Char) (rest acc : List Char) :
+    parseStr (fuel + 1) (escChar c ++ rest) acc = parseStr fuel rest (c :: acc) := by
+  unfold escChar
+  split
+  · rename_i h; subst h; simp [parseStr]
+  split
+  · rename_i h; subst h; simp [parseStr]
+  split
+  · rename_i h; subst h; simp [parseStr]
+  split
+  · rename_i h; subst h; simp [parseStr]
+  split
+  · rename_i h; subst h; simp [parseStr]
+  split
+  · rename_i h; subst h; simp [parseStr]
+  split
+  · rename_i h; subst h; simp [parseStr]
+  split
+  · rename_i h1 h2 h3 h4 h5 h6 h7 h8
+    have hx := hex4_ctl c.toNat h8 rest
+    have hc : Char.ofNat c.toNat = c := Char.ofNat_toNat c
+    simp only [List.cons_append, List.nil_append, parseStr, hx]
+    have a1 : ¬ (0xD800 ≤ c.toNat) := by omega
+    have a2 : ¬ (0xDC00 ≤ c.toNat) := by omega
+    simp [a1, a2, hc]
+  · rename_i h1 h2 h3 h4 h5 h6 h7 h8
+    simp only [List.cons_append, List.nil_append]
+    rw [parseStr]
+    · simp [h8]
+    · exact h1
+    · intro e r hc _; exact h2 hc
+
+theorem escChar_length_pos (c : Char) : 1 ≤ (escChar c).length := by
+  unfold escChar
+  repeat' split
+  all_goals simp
+
+theorem escK_length (s k : List Char) : s.length + k.length ≤ (escK s k).length := by
+  induction s with
+  | nil => simp [escK]
+  | cons c cs ih =>
+    have := escChar_length_pos c
+    simp only [escK, List.length_append, List.length_cons]
+    omega
+
+/-- a whole string body up to and including the closing quote -/
+theorem parseStr_esc (s rest : List Char) :
+    ∀ (acc : List Char) (fuel : Nat), s.length + 1 ≤ fuel →
+      parseStr fuel (escK s ('"' :: rest)) acc = some (String.ofList (acc.reverse ++ s), rest) := by
+  induction s with
+  | nil =>
+    intro acc fuel hf
+    obtain ⟨f, rfl⟩ : ∃ f, fuel = f + 1 := ⟨fuel - 1, by omega⟩
+    simp [escK, parseStr]
+  | cons c cs ih =>
+    intro acc fuel hf
+    obtain ⟨f, rfl⟩ : ∃ f, fuel = f + 1 := ⟨fuel - 1, by omega⟩
+    simp only [escK]
+    rw [parseStr_char, ih (c :: acc) f (by simp at hf ⊢; omega)]
+    simp
+
+/-! ### documents, their canonical compact text, their direct translation -/
+
+inductive JDoc where
+  | null
+  | bool (b : Bool)
+  | int (i : Int)              -- an integer literal
+  | num (f : F64)              -- any other number, given as the double it denotes
+  | str (s : List Char)
+  | arr (l : List JDoc)
+  | obj (kvs : List (List Char × JDoc))
+
+section
+variable (P : F64 → List Char)
+
+mutual
+/-- compact text of a document followed by `k` (`P` prints the non-integer numbers) -/
+def printK : JDoc → List Char → List Char
+  | .null, k => 'n' :: 'u' :: 'l' :: 'l' :: k
+  | .bool true, k => 't' :: 'r' :: 'u' :: 'e' :: k
+  | .bool false, k => 'f' :: 'a' :: 'l' :: 's' :: 'e' :: k
+  | .int i, k => (toString i).toList ++ k
+  | .num f, k => P f ++ k
+  | .str s, k => '"' :: escK s ('"' :: k)
+  | .arr [], k => '[' :: ']' :: k
+  | .arr (d :: ds), k => '[' :: printK d (printElemsK ds (']' :: k))
+  | .obj [], k => '{' :: '}' :: k
+  | .obj ((key, d) :: rest), k =>
+    '{' :: '"' :: escK key ('"' :: ':' :: printK d (printMembersK rest ('}' :: k)))
+/-- the remaining elements, each preceded by a comma -/
+def printElemsK : List JDoc → List Char → List Char
+  | [], k => k
+  | d :: ds, k => ',' :: printK d (printElemsK ds k)
+def printMembersK : List (List Char × JDoc) → List Char → List Char
+  | [], k => k
+  | (key, d) :: rest, k => ',' :: '"' :: escK key ('"' :: ':' :: printK d (printMembersK rest k))
+end
+
+end
+
+mutual
+/-- the direct structural translation: members are put into a finite map in document order
+(duplicate names: the last one wins), kept key-sorted -/
+def toValue : JDoc → Value
+  | .null => .none
+  | .bool b => .bool b
+  | .int i => .int i
+  | .num f => Value.fromFloat f
+  | .str s => .str (String.ofList s)
+  | .arr l => .arr (toValues l)
+  | .obj kvs => .obj (toFields kvs [])
+def toValues : List JDoc → List Value
+  | [] => []
+  | d :: ds => toValue d :: toValues ds
+def toFields : List (List Char × JDoc) → Fields → Fields
+  | [], acc => acc
+  | (k, d) :: rest, acc => toFields rest (Fields.put (String.ofList k) (toValue d) acc)
+end
+
+mutual
+/-- fuel that suffices for `parseValue` -/
+def need : JDoc → Nat
+  | .arr l => 1 + needElems l
+  | .obj kvs => 1 + needMembers kvs
+  | _ => 1
+def needElems : List JDoc → Nat
+  | [] => 0
+  | d :: ds => 1 + need d + needElems ds
+def needMembers : List (List Char × JDoc) → Nat
+  | [] => 0
+  | (_, d) :: rest => 1 + need d + needMembers rest
+end
+
+mutual
+/-- nesting depth (arrays and objects) -/
+def depthOf : JDoc → Nat
+  | .arr l => 1 + depthElems l
+  | .obj kvs => 1 + depthMembers kvs
+  | _ => 0
+def depthElems : List JDoc → Nat
+  | [] => 0
+  | d :: ds => max (depthOf d) (depthElems ds)
+def depthMembers : List (List Char × JDoc) → Nat
+  | [] => 0
+  | (_, d) :: rest => max (depthOf d) (depthMembers rest)
+end
+
+mutual
+/-- every integer literal fits i64; every other number is printed by `P` so that the reader gets
+the double back (external: ryu / float parsing), as a text that starts like a number -/
+def NumsOK (P : F64 → List Char) : JDoc → Prop
+  | .int i => Value.inI64 i = true
+  | .num f => (∀ rest, Stop rest → parseNum (P f ++ rest) = some (Value.fromFloat f, rest)) ∧
+      ∃ c t, P f = c :: t ∧ (c = '-' ∨ c.isDigit = true)
+  | .arr l => NumsOKs P l
+  | .obj kvs => NumsOKm P kvs
+  | _ => True
+def NumsOKs (P : F64 → List Char) : List JDoc → Prop
+  | [] => True
+  | d :: ds => NumsOK P d ∧ NumsOKs P ds
+def NumsOKm (P : F64 → List Char) : List (List Char × JDoc) → Prop
+  | [] => True
+  | (_, d) :: rest => NumsOK P d ∧ NumsOKm P rest
+end
+
+/-! ### the value reader on printed text -/
+
+theorem skipWs_of_not_ws (c : Char) (t : List Char) (h : isWs c = false) : skipWs (c :: t) = c :: t := by
+  simp [skipWs, h]
+
+/-- a text that starts like a number is handed to `parseNum` -/
+theorem parseValue_num (fuel depth : Nat) (c : Char) (t : List Char) (h : c = '-' ∨ c.isDigit = true) :
+    parseValue (fuel + 1) depth (c :: t) = parseNum (c :: t) := by
+  have hws : isWs c = false := by
+    rcases h with rfl | h
+    · decide
+    · unfold isWs
+      have : c.isDigit = true := h
+      simp only [Char.isDigit, Bool.and_eq_true, decide_eq_true_eq] at this
+      have h1 : c ≠ ' ' := by intro e; subst e; simp at this
+      have h2 : c ≠ '\t' := by intro e; subst e; simp at this
+      have h3 : c ≠ '\n' := by intro e; subst e; simp at this
+      have h4 : c ≠ '\r' := by intro e; subst e; simp at this
+      simp [h1, h2, h3, h4]
+  rw [parseValue, skipWs_of_not_ws c t hws]
+  have hcases : (c == '-' || c.isDigit) = true := by
+    rcases h with rfl | h
+    · decide
+    · simp [h]
+  split
+  all_goals first
+    | (rename_i heq; injection heq with e1 e2; subst e1
+       rcases h with h | h
+       · exact absurd h (by decide)
+       · exact absurd h (by decide))
+    | (rename_i heq; injection heq with e1 e2; subst e1; subst e2; simp [hcases])
+    | (rename_i heq; cases heq)
+
+/-- first characters of a printed value -/
+def ValStart (c : Char) : Prop :=
+  c = 'n' ∨ c = 't' ∨ c = 'f' ∨ c = '"' ∨ c = '[' ∨ c = '{' ∨ c = '-' ∨ c.isDigit = true
+
+theorem ValStart.facts {c : Char} (h : ValStart c) :
+    isWs c = false ∧ c ≠ ']' ∧ c ≠ '}' ∧ c ≠ ',' := by
+  rcases h with rfl | rfl | rfl | rfl | rfl | rfl | rfl | h
+  all_goals first
+    | decide
+    | (refine ⟨?_, ?_, ?_, ?_⟩
+       · unfold isWs
+         have h1 : c ≠ ' ' := by intro e; subst e; simp at h
+         have h2 : c ≠ '\t' := by intro e; subst e; simp at h
+         have h3 : c ≠ '\n' := by intro e; subst e; simp at h
+         have h4 : c ≠ '\r' := by intro e; subst e; simp at h
+         simp [h1, h2, h3, h4]
+       · intro e; subst e; simp at h
+       · intro e; subst e; simp at h
+       · intro e; subst e; simp at h)
+
+theorem intText_head (i : Int) : ∃ c t, (toString i).toList = c :: t ∧ (c = '-' ∨ c.isDigit = true) := by
+  rw [Int.toString_eq_repr, Int.repr_eq_if]
+  by_cases h0 : 0 ≤ i
+  · simp only [if_pos h0, Nat.toList_repr]
+    cases hd : Nat.toDigits 10 i.toNat with
+    | nil => exact absurd hd Nat.toDigits_ne_nil
+    | cons d0 ds => exact ⟨d0, ds, rfl, Or.inr (toDigits_all_digit i.toNat d0 (by simp [hd]))⟩
+  · simp only [if_neg h0, String.toList_append]
+    exact ⟨'-', _, rfl, Or.inl rfl⟩
+
+section
+variable (P : F64 → List Char)
+
+theorem printK_head (d : JDoc) (hn : NumsOK P d) (X : List Char) :
+    ∃ c t, printK P d X = c :: t ∧ ValStart c := by
+  cases d with
+  | null => exact ⟨'n', _, by rw [printK], Or.inl rfl⟩
+  | bool b => cases b
+              · exact ⟨'f', _, by rw [printK], Or.inr (Or.inr (Or.inl rfl))⟩
+              · exact ⟨'t', _, by rw [printK], Or.inr (Or.inl rfl)⟩
+  | int i =>
+    obtain ⟨c, t, h1, h2⟩ := intText_head i
+    refine ⟨c, t ++ X, by rw [printK, h1]; rfl, ?_⟩
+    rcases h2 with h2 | h2
+    · exact Or.inr (Or.inr (Or.inr (Or.inr (Or.inr (Or.inr (Or.inl h2))))))
+    · exact Or.inr (Or.inr (Or.inr (Or.inr (Or.inr (Or.inr (Or.inr h2))))))
+  | num f =>
+    obtain ⟨_, c, t, h1, h2⟩ := hn
+    refine ⟨c, t ++ X, by rw [printK, h1]; rfl, ?_⟩
+    rcases h2 with h2 | h2
+    · exact Or.inr (Or.inr (Or.inr (Or.inr (Or.inr (Or.inr (Or.inl h2))))))
+    · exact Or.inr (Or.inr (Or.inr (Or.inr (Or.inr (Or.inr (Or.inr h2))))))
+  | str s => exact ⟨'"', _, by rw [printK], Or.inr (Or.inr (Or.inr (Or.inl rfl)))⟩
+  | arr l =>
+    cases l with
+    | nil => exact ⟨'[', _, by rw [printK], Or.inr (Or.inr (Or.inr (Or.inr (Or.inl rfl))))⟩
+    | cons d ds => exact ⟨'[', _, by rw [printK], Or.inr (Or.inr (Or.inr (Or.inr (Or.inl rfl))))⟩
+  | obj kvs =>
+    cases kvs with
+    | nil => exact ⟨'{', _, by rw [printK], Or.inr (Or.inr (Or.inr (Or.inr (Or.inr (Or.inl rfl)))))⟩
+    | cons kd rest =>
+      obtain ⟨key, d⟩ := kd
+      exact ⟨'{', _, by rw [printK], Or.inr (Or.inr (Or.inr (Or.inr (Or.inr (Or.inl rfl)))))⟩
+
+theorem stop_elems (ds : List JDoc) (k : List Char) : Stop (printElemsK P ds (']' :: k)) := by
+  cases ds with
+  | nil => exact Or.inr ⟨k, Or.inr (Or.inl (by rw [printElemsK]))⟩
+  | cons d ds => exact Or.inr ⟨_, Or.inl (by rw [printElemsK])⟩
+
+theorem stop_members (rest : List (List Char × JDoc)) (k : List Char) :
+    Stop (printMembersK P rest ('}' :: k)) := by
+  cases rest with
+  | nil => exact Or.inr ⟨k, Or.inr (Or.inr (by rw [printMembersK]))⟩
+  | cons kd rest => obtain ⟨key, d⟩ := kd; exact Or.inr ⟨_, Or.inl (by rw [printMembersK])⟩
+
+end
 
 end Ag.C06
